@@ -282,6 +282,8 @@ func (sc *SpecCtx) eval(e ast.Expr) SV {
 		var l *Loc
 		if _, isStruct := pt.Elem().Underlying().(*types.Struct); isStruct {
 			l = &Loc{kind: lkObj, base: base.t, typ: pt.Elem()}
+		} else if at, isArr := pt.Elem().Underlying().(*types.Array); isArr {
+			l = &Loc{kind: lkArray, key: sc.ex.memKey(at.Elem()), base: base.t, typ: pt.Elem()}
 		} else {
 			s := q.so.sortOf(pt.Elem())
 			l = &Loc{kind: lkCell, key: sc.ex.regKey("C:"+s, arrSort(sInt, s)), base: base.t, typ: pt.Elem()}
@@ -307,8 +309,7 @@ func (sc *SpecCtx) eval(e ast.Expr) SV {
 			return SV{ite(has, sel(sel(q.heapGet(sc.curHeap(), vk), base.t), idx.t), sc.ex.zero(bt.Elem())), bt.Elem()}
 		case *types.Pointer:
 			if at, ok := bt.Elem().Underlying().(*types.Array); ok {
-				s := q.so.sortOf(bt.Elem())
-				l := &Loc{kind: lkCell, key: sc.ex.regKey("C:"+s, arrSort(sInt, s)), base: base.t, typ: bt.Elem()}
+				l := &Loc{kind: lkArray, key: sc.ex.memKey(at.Elem()), base: base.t, typ: bt.Elem()}
 				return SV{sel(sc.ex.load(l, sc.curHeap()), idx.t), at.Elem()}
 			}
 		}
@@ -396,7 +397,7 @@ func (sc *SpecCtx) selectField(base SV, fi int) SV {
 	ft := u.Field(fi).Type()
 	if isPtr {
 		l := sc.ex.fieldLoc(base.t, st, fi, nil)
-		return SV{sel(q.heapGet(sc.curHeap(), l.key), base.t), ft}
+		return SV{sel(q.heapGet(sc.curHeap(), l.key), l.base), ft}
 	}
 	return SV{q.so.structField(base.t, u, fi), ft}
 }
